@@ -454,8 +454,15 @@ def run_c18(rep, tier, seed):
             (f"policy=window containing the current hour, trigger exceeded", f"cfg {base} policy={in_window} {above}", "merge", deadline),
             (f"policy=window not containing the current hour, trigger exceeded", f"cfg {base} policy={out_window} {above}", "none", quiet),
         ]
-    writes = ["put 6b 31*10", "put 6b 32*10", "put 6b 33*10", "put 6b 34*10"]
-    for ci, (name, cfg, expect, wait) in enumerate(cases):
+    # a file in which nothing is live any more (two overwritten values and a tombstone): fragmentation 1, 3 dead entries
+    cases.insert(1, ("policy=always, fragmentation trigger exceeded by a file whose entries are all dead", f"cfg {base} policy=always tfrag=1/2 tdead=1099511627776", "merge", deadline, "all-dead"))
+    cases.insert(2, ("policy=always, dead-bytes trigger exceeded by a file whose entries are all dead", f"cfg {base} policy=always tfrag=1/1 tdead=50", "merge", deadline, "all-dead"))
+    for ci, case in enumerate(cases):
+        (name, cfg, expect, wait) = case[:4]
+        if len(case) > 4:
+            writes, final = ["put 6b 31*10", "put 6b 32*10", "del 6b"], "nil"
+        else:
+            writes, final = ["put 6b 31*10", "put 6b 32*10", "put 6b 33*10", "put 6b 34*10"], "34343434343434343434"
         mcfg = cfg.replace("policy=" + (re.search(r"policy=(\S+)", cfg).group(1)), "policy=" + ("always" if expect == "merge" or "policy=always" in cfg else "never"))
         script = [cfg, f"dir c{ci}", "open"] + writes + ["canmerge", f"waitfor hint {wait}", "get 6b", "close"]
         mscript = [mcfg, f"dir c{ci}", "open"] + writes + ["canmerge"]
@@ -485,8 +492,8 @@ def run_c18(rep, tier, seed):
                 bad = (i + 1, f"a merge within {wait} ms without any client action", w, "oracle")
             if not bad and expect == "none" and w != "timeout":
                 bad = (i + 1, f"no merge ({wait} ms observed)", w, "oracle")
-            if not bad and ans[i + 2] != "34343434343434343434":
-                bad = (i + 2, "34343434343434343434", ans[i + 2], "oracle")
+            if not bad and ans[i + 2] != final:
+                bad = (i + 2, final, ans[i + 2], "oracle")
             if w.startswith("seen"):
                 rep.count("merge_latency_ms_total", int(w.split(" ")[1]))
         if bad:
@@ -522,7 +529,7 @@ def run_c18(rep, tier, seed):
         rep.violation("oracle", dict(what=f"harness died ({d.why})", script=script, answers=d.answered))
     shutil.rmtree(root, ignore_errors=True)
     rep.cov["rule"] = ("configurations x write patterns: policy always/never/window (containing or not the current hour), fragmentation and dead-bytes triggers just above and just below the written pattern "
-                       "(3 of 4 entries dead, ~84 dead bytes), check intervals 40-150 ms, jitter 0 / 0.3 / 1; the store is left alone and the directory polled: a merge (a hint file) must appear within "
+                       "(3 of 4 entries dead, ~84 dead bytes; and a file whose entries are all dead: two overwritten values and a tombstone), check intervals 40-150 ms, jitter 0 / 0.3 / 1; the store is left alone and the directory polled: a merge (a hint file) must appear within "
                        "interval*(1+jitter)+4 s when expected and must not appear during >= 12 intervals when not; `can_merge()` is compared with the Lean decision model; interval sync: five consecutive "
                        "waits each see an fsync of the active file within interval+4 s; sync=none: none in 400 ms; non-trivial = distinct case")
 
